@@ -1,7 +1,7 @@
 (* CatalogProofs.v — the two-structure Catalog (CatalogImpl.v) refines the association-list model
    (Coll.v section Assoc): representation invariant [cat_inv], abstraction [abs], every method preserves the
    invariant and commutes with [abs]; frame lemmas (which heap cells a call may write); histories. *)
-From Verif Require Import Base Sorter SorterProofs SorterProofs2 Seq Coll AssocProofs CatalogImpl.
+From Verif Require Import Base Sorter SorterProofs SorterProofs2 Value Seq Coll Pool AssocProofs AssocProofs2 CatalogImpl.
 From Coq Require Import Permutation.
 Local Open Scope nat_scope.
 
@@ -657,4 +657,272 @@ Proof.
   rewrite <- (read_all_alloc _ _ (sep_alloc _ _ _ S)). exact E2.
 Qed.
 
+(* ---------- class functions ---------- *)
+Theorem set_all_refines : forall kvs h c, cat_inv h c ->
+  exists h' c', c_set_all keq h c kvs = Ret (h', c') /\ cat_inv h' c' /\
+                abs h' c' = a_set_all keq (abs h c) kvs /\ frame h c h' c'.
+Proof.
+  induction kvs as [|[k v] t IH]; intros h c I; cbn [c_set_all].
+  - exists h, c. split; [reflexivity|]. split; [exact I|]. split; [reflexivity|apply frame_refl].
+  - destruct (set_value_refines h c k v I) as (h1 & c1 & E1 & I1 & A1 & F1). rewrite E1. cbn [out_bind fst snd].
+    destruct (IH h1 c1 I1) as (h2 & c2 & E2 & I2 & A2 & F2). exists h2, c2. split; [exact E2|]. split; [exact I2|].
+    split; [rewrite A2, A1; reflexivity|]. destruct I as (_ & Ha & _). apply (frame_trans h c h1 c1 h2 c2 Ha F1 F2).
+Qed.
+
+(* MakeFromMap: from the empty catalog, in the order the range statement visits the Go map *)
+Theorem from_map_refines : forall h m,
+  exists h' c', c_from_map keq h m = Ret (h', c') /\ cat_inv h' c' /\ abs h' c' = a_set_all keq [] m /\
+                same_on (fun _ => True) h h'.
+Proof.
+  intros h m. destruct (set_all_refines m h c_make (inv_make h)) as (h' & c' & E & I & A & [S _]).
+  exists h', c'. split; [exact E|]. split; [exact I|]. split; [exact A|].
+  apply (same_on_weaken _ _ h h' (fun i _ => (fun X : In i [] => X)) S).
+Qed.
+
+Theorem load_refines : forall arr h c, cat_inv h c -> sep h c arr ->
+  exists h' c', c_load keq h c arr = Ret (h', c') /\ cat_inv h' c' /\
+                abs h' c' = a_set_all keq (abs h c) (map (deref h) arr) /\ frame h c h' c'.
+Proof.
+  induction arr as [|i t IH]; intros h c I S; cbn [c_load map].
+  - exists h, c. split; [reflexivity|]. split; [exact I|]. split; [reflexivity|apply frame_refl].
+  - inversion S as [|? ? [Hi Hni] St]; subst.
+    rewrite (h_get_alloc h i Hi). destruct (deref h i) as [k v] eqn:Ed.
+    destruct (set_value_refines h c k v I) as (h1 & c1 & E1 & I1 & A1 & F1). rewrite E1. cbn [out_bind fst snd].
+    destruct (frame_sep h c h1 c1 t F1 St) as [S1 M1].
+    destruct (IH h1 c1 I1 S1) as (h2 & c2 & E2 & I2 & A2 & F2). exists h2, c2. split; [exact E2|]. split; [exact I2|].
+    split; [rewrite A2, A1, M1; reflexivity|]. destruct I as (_ & Ha & _). apply (frame_trans h c h1 c1 h2 c2 Ha F1 F2).
+Qed.
+
+Lemma same_on_all : forall (h h' : heap) c', frame h (c_make : cat) h' c' -> same_on (fun _ => True) h h'.
+Proof. intros h h' c' [S _]. apply (same_on_weaken _ _ h h' (fun i _ => (fun X : In i [] => X)) S). Qed.
+
+Lemma inv_same_all : forall h h' c, cat_inv h c -> same_on (fun _ => True) h h' -> cat_inv h' c /\ abs h' c = abs h c.
+Proof. intros h h' c I S. apply (inv_same h h' c I). apply (same_on_weaken _ _ h h' (fun _ _ => Logic.I) S). Qed.
+
+Lemma abs_length : forall h (c : cat), length (abs h c) = length (c_assocs c).
+Proof. intros. unfold abs. apply map_length. Qed.
+
+(* reading the copies made by AsArray yields the abstraction *)
+Lemma copies_read : forall h c, cat_inv h c ->
+  map (deref (h ++ abs h c)) (seq (length h) (length (c_assocs c))) = abs h c.
+Proof.
+  intros h c I. destruct (as_array_spec h c I) as [_ E2].
+  assert (Ha : alloc (h ++ abs h c) (seq (length h) (length (c_assocs c)))).
+  { apply (sep_alloc _ (c_make : cat)). rewrite <- (abs_length h c). apply sep_fresh. constructor. }
+  rewrite (read_all_alloc _ _ Ha) in E2. injection E2 as E2. exact E2.
+Qed.
+
+(* Merge(first, second): a NEW catalog; no existing cell is written, so both operands (which may be the same
+   catalog) keep their invariant and their contents *)
+Theorem merge_refines : forall h a b, cat_inv h a -> cat_inv h b ->
+  exists h' c', c_merge keq h a b = Ret (h', c') /\ cat_inv h' c' /\
+                abs h' c' = a_merge keq (abs h a) (abs h b) /\ same_on (fun _ => True) h h'.
+Proof.
+  intros h a b Ia Ib. unfold c_merge, c_from_sequence.
+  destruct (as_array_spec h a Ia) as [E1 _]. rewrite E1. cbn [out_bind fst snd].
+  set (h1 := h ++ abs h a).
+  assert (S1 : sep h1 (c_make : cat) (seq (length h) (length (c_assocs a)))).
+  { rewrite <- (abs_length h a). apply sep_fresh. constructor. }
+  destruct (load_refines _ h1 c_make (inv_make h1) S1) as (h2 & c2 & E2 & I2 & A2 & F2). rewrite E2. cbn [out_bind fst snd].
+  unfold h1 in A2. rewrite (copies_read h a Ia) in A2. fold h1 in A2.
+  assert (S02 : same_on (fun _ => True) h h2).
+  { apply (same_on_trans _ h h1 h2); [apply same_on_app|apply (same_on_all h1 h2 c2 F2)]. }
+  destruct (inv_same_all h h2 b Ib S02) as [Ib2 Ab2].
+  destruct (as_array_spec h2 b Ib2) as [E3 _]. rewrite E3. cbn [out_bind fst snd].
+  set (h3 := h2 ++ abs h2 b).
+  destruct (inv_same h2 h3 c2 I2 (same_on_app _ h2 _)) as [I23 A23].
+  assert (S3 : sep h3 c2 (seq (length h2) (length (c_assocs b)))).
+  { rewrite <- (abs_length h2 b). apply sep_fresh. apply I2. }
+  destruct (load_refines _ h3 c2 I23 S3) as (h4 & c4 & E4 & I4 & A4 & F4). exists h4, c4.
+  split; [exact E4|]. split; [exact I4|]. split.
+  - rewrite A4, A23, A2. unfold h3. rewrite (copies_read h2 b Ib2), Ab2. reflexivity.
+  - destruct S02 as [L02 D02]. destruct F4 as [[L34 D34] _]. destruct F2 as [_ N2].
+    assert (L23 : length h2 <= length h3) by (unfold h3; rewrite app_length; lia).
+    split; [lia|]. intros i Hi _. rewrite D34.
+    + unfold h3, deref. rewrite app_nth1 by lia. apply D02; auto.
+    + lia.
+    + intros X. destruct (N2 i X) as [[]|Y]. unfold h1 in Y. rewrite app_length in Y. lia.
+Qed.
+
+Lemma extract_fill_spec : forall arr (h : heap) ex, alloc h arr ->
+  extract_fill keq h ex arr = Ret (a_set_all keq ex (map (deref h) arr)).
+Proof.
+  induction arr as [|i t IH]; intros h ex Ha; cbn [extract_fill map]; [reflexivity|].
+  inversion Ha as [|? ? Hi Ht]; subst. rewrite (h_get_alloc h i Hi). destruct (deref h i) as [k v] eqn:Ed.
+  rewrite (IH h _ Ht). reflexivity.
+Qed.
+
+Lemma extract_loop_spec : forall ex ks h r, cat_inv h r ->
+  exists h' r', extract_loop keq h ex r ks = Ret (h', r') /\ cat_inv h' r' /\
+    abs h' r' = fold_left (fun acc k => match a_get keq ex k with Some v => a_set keq acc k v | None => acc end) ks (abs h r) /\
+    frame h r h' r'.
+Proof.
+  intros ex. induction ks as [|k t IH]; intros h r I; cbn [extract_loop fold_left].
+  - exists h, r. split; [reflexivity|]. split; [exact I|]. split; [reflexivity|apply frame_refl].
+  - destruct (a_get keq ex k) as [v|]; [|apply IH; exact I].
+    destruct (set_value_refines h r k v I) as (h1 & r1 & E1 & I1 & A1 & F1). rewrite E1. cbn [out_bind fst snd].
+    destruct (IH h1 r1 I1) as (h2 & r2 & E2 & I2 & A2 & F2). exists h2, r2. split; [exact E2|]. split; [exact I2|].
+    split; [rewrite A2, A1; reflexivity|]. destruct I as (_ & Ha & _). apply (frame_trans h r h1 r1 h2 r2 Ha F1 F2).
+Qed.
+
+Theorem extract_refines : forall h c ks, cat_inv h c ->
+  exists h' c', c_extract keq h c ks = Ret (h', c') /\ cat_inv h' c' /\
+                abs h' c' = a_extract keq (abs h c) ks /\ same_on (fun _ => True) h h'.
+Proof.
+  intros h c ks I. unfold c_extract.
+  destruct (as_array_spec h c I) as [E1 _]. rewrite E1. cbn [out_bind fst snd].
+  set (h1 := h ++ abs h c).
+  assert (Ha : alloc h1 (seq (length h) (length (c_assocs c)))).
+  { apply (sep_alloc _ (c_make : cat)). rewrite <- (abs_length h c). apply sep_fresh. constructor. }
+  rewrite (extract_fill_spec _ h1 [] Ha). cbn [out_bind]. unfold h1 at 2. rewrite (copies_read h c I).
+  assert (Efresh : a_set_all keq [] (abs h c) = abs h c).
+  { apply (a_set_all_fresh K V keq keq_sym (abs h c) []). cbn [app]. apply I. }
+  rewrite Efresh.
+  destruct (extract_loop_spec (abs h c) ks h1 c_make (inv_make h1)) as (h2 & c2 & E2 & I2 & A2 & F2).
+  exists h2, c2. split; [exact E2|]. split; [exact I2|]. split; [exact A2|].
+  apply (same_on_trans _ h h1 h2); [apply same_on_app|apply (same_on_all h1 h2 c2 F2)].
+Qed.
+
+(* MakeFromSequence / MakeFromArray over association objects that live in the heap (a list or a Go array of
+   associations): the objects are only read *)
+Theorem from_sequence_refines : forall h arr, alloc h arr ->
+  exists h' c', c_from_sequence keq h arr = Ret (h', c') /\ cat_inv h' c' /\
+                abs h' c' = a_set_all keq [] (map (deref h) arr) /\ same_on (fun _ => True) h h'.
+Proof.
+  intros h arr Ha. unfold c_from_sequence.
+  assert (S : sep h (c_make : cat) arr).
+  { unfold sep, alloc in *. rewrite Forall_forall in *. intros i Hi. split; [apply Ha; exact Hi|intros []]. }
+  destruct (load_refines arr h c_make (inv_make h) S) as (h' & c' & E & I & A & F).
+  exists h', c'. split; [exact E|]. split; [exact I|]. split; [exact A|apply (same_on_all h h' c' F)].
+Qed.
+
+(* ---------- from the empty catalog ---------- *)
+Theorem crun_from_empty : forall ops,
+  exists h c, crun vzero keq cinit ops = Ret ((h, c), snd (srun vzero keq [] ops)) /\
+              cat_inv h c /\ abs h c = fst (srun vzero keq [] ops).
+Proof.
+  intros ops. destruct (crun_refines ops [] c_make (inv_make [])) as (h & c & E & I & A & _).
+  exists h, c. split; [exact E|]. split; [exact I|exact A].
+Qed.
+
+(* C03, title clause, for the two-structure machine: after ANY history the key index and the ordered list
+   describe the same associations *)
+Theorem index_and_order_agree : forall ops h c obs, crun vzero keq cinit ops = Ret ((h, c), obs) ->
+  cat_inv h c /\
+  c_get_keys h c = Ret (map fst (abs h c)) /\
+  (exists h' arr, c_as_array h c = Ret (h', arr) /\ read_all h' arr = Ret (abs h c)) /\
+  (exists h' it, c_get_iterator h c = Ret (h', it) /\ drain (S (it_size it)) h' it = Ret (abs h c)) /\
+  c_get_size c = length (abs h c) /\ length (c_keys c) = length (abs h c) /\
+  (forall k, c_get_value vzero keq h c k = Ret (a_get_or_zero vzero keq (abs h c) k)) /\
+  (forall k v, In (k, v) (abs h c) -> keq k k = true -> c_get_value vzero keq h c k = Ret v) /\
+  (forall k, a_get keq (c_keys c) k = None <-> a_get keq (abs h c) k = None) /\
+  wf (abs h c).
+Proof.
+  intros ops h c obs R. destruct (crun_from_empty ops) as (h' & c' & E & I & _). rewrite E in R. injection R as <- <- _.
+  split; [exact I|]. split; [apply get_keys_refines; exact I|].
+  destruct (as_array_spec h' c' I) as [E1 E2].
+  split; [eexists; eexists; split; [exact E1|exact E2]|]. split.
+  { unfold c_get_iterator. rewrite E1. cbn [out_map fst snd]. eexists. eexists. split; [reflexivity|].
+    change (it_make (seq (length h') (length (c_assocs c'))))
+      with {| it_vals := [] ++ seq (length h') (length (c_assocs c')); it_slot := length (@nil id) |}.
+    rewrite drain_spec by (unfold it_size; cbn [it_vals app]; lia). exact E2. }
+  split; [apply size_refines|]. split; [rewrite abs_length; apply (keys_length h' c' I)|].
+  split; [intros k; apply get_value_refines; exact I|]. split.
+  { intros k v Hin Hr. rewrite (get_value_refines h' c' k I). f_equal. unfold a_get_or_zero.
+    assert (G : a_get keq (abs h' c') k = Some v).
+    { apply (views_agree_at K V keq keq_sym (abs h' c')); [apply I|exact Hin|exact Hr]. }
+    rewrite G. reflexivity. }
+  split; [|apply I].
+  intros k. rewrite (keys_lookup h' c' k I). unfold abs. rewrite a_get_abs.
+  destruct (lk h' (c_assocs c') k); cbn; split; intros X; try discriminate; reflexivity.
+Qed.
+
 End CatalogProofs.
+
+(* ---------- the instance the pool uses: Go values, Go's "==" (Value.keq: symmetric and transitive) ---------- *)
+Definition vinv (zero : val) : heap val val -> cat val -> Prop := cat_inv val val VNil zero Value.keq.
+Definition vabs (zero : val) : heap val val -> cat val -> list (val * val) := abs val val VNil zero.
+Definition vframe (zero : val) := frame val val VNil zero.
+Definition vsame (zero : val) := same_on val val VNil zero (fun _ => True).
+
+Definition val_cstep_refines zero := cstep_refines val val VNil zero Value.keq keq_sym keq_trans.
+Definition val_crun_refines zero := crun_refines val val VNil zero Value.keq keq_sym keq_trans.
+Definition val_crun_from_empty zero := crun_from_empty val val VNil zero Value.keq keq_sym keq_trans.
+Definition val_index_and_order_agree zero := index_and_order_agree val val VNil zero Value.keq keq_sym keq_trans.
+Definition val_snapshot_independent zero := snapshot_independent val val VNil zero Value.keq keq_sym keq_trans.
+Definition val_set_value_refines zero := set_value_refines val val VNil zero Value.keq keq_sym keq_trans.
+Definition val_remove_value_refines zero := remove_value_refines val val VNil zero Value.keq keq_sym keq_trans.
+Definition val_merge_refines zero := merge_refines val val VNil zero Value.keq keq_sym keq_trans.
+Definition val_extract_refines zero := extract_refines val val VNil zero Value.keq keq_sym keq_trans.
+Definition val_from_map_refines zero := from_map_refines val val VNil zero Value.keq keq_sym keq_trans.
+Definition val_from_sequence_refines zero := from_sequence_refines val val VNil zero Value.keq keq_sym keq_trans.
+
+(* structural equality of two association objects, as the default collator sees them (the comparison
+   List.GetIndex used before fix 0d7f9f0) *)
+Definition assoc_seq (a b : val * val) : bool := eq_default (VAssoc (fst a) (snd a)) (VAssoc (fst b) (snd b)).
+
+(* data of the Examples: the 6-step history  a:=1, b:=2, c:=3, b:=20 (repeated key), remove b (the middle
+   one), b:=5  — and its observers *)
+Definition ex6 : list (cop val val) :=
+  [CSet ka (iv 1); CSet kb (iv 2); CSet kc (iv 3); CSet kb (iv 20); CRemove kb; CSet kb (iv 5)].
+Definition ex6_heap : heap val val := [(ka, iv 1); (kb, iv 20); (kc, iv 3); (kb, iv 5)].
+Definition ex6_cat : cat val := {| c_assocs := [0; 2; 3]; c_keys := [(ka, 0); (kc, 2); (kb, 3)] |}.
+(* two pointer keys with distinct identity and equal content (findings/pre-fix/C03-1-9.json is the float
+   variant of the same history shape), both mapped to 5 *)
+Definition kp1 : val := VPtr 1 7.
+Definition kp2 : val := VPtr 2 7.
+Definition ex_ptr_heap : heap val val := [(kp1, iv 5); (kp2, iv 5)].
+Definition ex_ptr_cat : cat val := {| c_assocs := [0; 1]; c_keys := [(kp1, 0); (kp2, 1)] |}.
+
+Lemma ex_states_from_histories :
+  crun (iv 0) Value.keq cinit ex6 = Ret ((ex6_heap, ex6_cat), [BUnit; BUnit; BUnit; BUnit; BVal (iv 20); BUnit]) /\
+  crun (iv 0) Value.keq cinit [CSet kp1 (iv 5); CSet kp2 (iv 5)] = Ret ((ex_ptr_heap, ex_ptr_cat), [BUnit; BUnit]).
+Proof. split; vm_compute; reflexivity. Qed.
+
+Lemma ex6_inv : vinv (iv 0) ex6_heap ex6_cat.
+Proof. exact (proj1 (val_index_and_order_agree (iv 0) ex6 _ _ _ (proj1 ex_states_from_histories))). Qed.
+Lemma ex_ptr_inv : vinv (iv 0) ex_ptr_heap ex_ptr_cat.
+Proof. exact (proj1 (val_index_and_order_agree (iv 0) _ _ _ _ (proj2 ex_states_from_histories))). Qed.
+
+(* before fix 5269313 AsArray handed out the catalog's own objects: a later SetValue on an existing key
+   shows through the array *)
+Theorem snapshot_refuted_before_fix :
+  exists (zero : val) (h : heap val val) (c : cat val) h2 arr ops h3 c3 obs,
+    vinv zero h c /\ c_as_array_before_fix h c = Ret (h2, arr) /\ read_all h2 arr = Ret (vabs zero h c) /\
+    crun zero Value.keq (h2, c) ops = Ret ((h3, c3), obs) /\ read_all h3 arr <> Ret (vabs zero h c).
+Proof.
+  exists (iv 0), ex6_heap, ex6_cat, ex6_heap, [0; 2; 3], [CSet ka (iv 9)].
+  eexists. eexists. eexists. split; [exact ex6_inv|]. split; [reflexivity|]. split; [vm_compute; reflexivity|].
+  split; [vm_compute; reflexivity|]. vm_compute. discriminate.
+Qed.
+
+(* before fix 0d7f9f0 RemoveValue located the list entry with the structural GetIndex: with two pointer keys
+   of equal content the entry of the OTHER key leaves the list, the index loses the requested key: the key
+   that GetKeys still lists reads as zero, the two structures have diverged *)
+Theorem remove_refuted_before_fix :
+  exists (zero : val) (h : heap val val) (c : cat val) k r c',
+    vinv zero h c /\ c_remove_value_before_fix zero Value.keq assoc_seq h c k = Ret (r, c') /\
+    vabs zero h c' <> a_remove Value.keq (vabs zero h c) k /\
+    c_get_keys h c' = Ret [k] /\ c_get_value zero Value.keq h c' k = Ret zero /\ r <> zero /\
+    ~ vinv zero h c'.
+Proof.
+  exists (iv 0), ex_ptr_heap, ex_ptr_cat, kp2. eexists. eexists.
+  split; [exact ex_ptr_inv|]. split; [vm_compute; reflexivity|].
+  split; [vm_compute; discriminate|]. split; [vm_compute; reflexivity|]. split; [vm_compute; reflexivity|].
+  split; [vm_compute; discriminate|].
+  intros (_ & _ & P & _). apply Permutation_length_1 in P. vm_compute in P. discriminate.
+Qed.
+
+(* the repaired RemoveValue on the same state removes the requested entry *)
+Lemma remove_after_fix_example :
+  c_remove_value (iv 0) Value.keq ex_ptr_heap ex_ptr_cat kp2 =
+    Ret (iv 5, {| c_assocs := [0]; c_keys := [(kp1, 0)] |}).
+Proof. vm_compute. reflexivity. Qed.
+
+Print Assumptions crun_refines.
+Print Assumptions index_and_order_agree.
+Print Assumptions snapshot_independent.
+Print Assumptions merge_refines.
+Print Assumptions extract_refines.
+Print Assumptions snapshot_refuted_before_fix.
+Print Assumptions remove_refuted_before_fix.
